@@ -327,6 +327,45 @@ theorem reduction_keeps_iff_pulses (records : List Record) (hits : List HitRef) 
           (keep → d[j]? = r.data[j]?) ∧ (¬ keep → d[j]? = some 0) :=
   cut_fragments_spec _ (fun j i => wf_isPrevFragment_iff hwf j i) hne (wf_noOrphan hwf) e
 
+/-- **The composite clause: reducing to the neighbourhood of the hits that `find_hits` finds.**  For well-formed pulse
+arrays, `hits = find_hits(records, …)` and `out = cut_outside_hits(records, hits, le, re)`: sample `j` of record `m` survives
+iff some record `k` has a maximal run `[l, r)` of samples at/above its threshold such that `m = k`, `j < length`,
+`l − le ≤ j < r + re`; or `m` holds the fragment before `k` in `k`'s pulse and `l − le ≤ j − samples_per_record`; or `m`
+holds the fragment after `k` and `j + samples_per_record < r + re`.  Every other sample is 0. -/
+theorem reduction_of_found_hits (records : List Record) (amp hon : ThrArg) (hits : List Hit) (le re : Int) (out : List Record)
+    (hne : records ≠ []) (hwf : wellFormedPulses records = true)
+    (eh : findHits records amp hon = .ok hits) (e : cutOutsideHits records (hits.map Hit.ref) le re = .ok out) :
+    ∀ m r, records[m]? = some r →
+      ∃ d, out[m]? = some { r with data := d, reductionLevel := hitsOnly } ∧
+        ∀ j : Nat, j < r.data.length →
+          let spr := samplesPerRecord records
+          let keep := ∃ k l rr : Nat,
+            (∃ rec thr, records[k]? = some rec ∧ thresholdOf records amp hon rec = .ok thr ∧ IsMaxRun (satFlags thr rec) l rr) ∧
+            ((m = k ∧ j < r.length ∧ (l : Int) - le ≤ j ∧ (j : Int) < rr + re)
+             ∨ (IsNextFragment records spr m k ∧ (l : Int) - le ≤ (j : Int) - spr ∧ j < spr)
+             ∨ (IsNextFragment records spr k m ∧ (j : Int) + spr < rr + re ∧ j < spr))
+          (keep → d[j]? = r.data[j]?) ∧ (¬ keep → d[j]? = some 0) := by
+  intro m r hr
+  obtain ⟨d, hd, hj⟩ := reduction_keeps_iff_pulses records (hits.map Hit.ref) le re out hne hwf e m r hr
+  refine ⟨d, hd, ?_⟩
+  intro j hjl spr keep
+  have hruns := (hits_are_maximal_runs records amp hon hits eh).1
+  have := hj j hjl
+  simp only at this
+  have hiff : keep ↔ ∃ h ∈ hits.map Hit.ref,
+      (m = h.recordI ∧ j < r.length ∧ (h.left : Int) - le ≤ j ∧ (j : Int) < h.right + re)
+      ∨ (IsNextFragment records spr m h.recordI ∧ (h.left : Int) - le ≤ (j : Int) - spr ∧ j < spr)
+      ∨ (IsNextFragment records spr h.recordI m ∧ (j : Int) + spr < h.right + re ∧ j < spr) := by
+    constructor
+    · rintro ⟨k, l, rr, hrun, hc⟩
+      obtain ⟨x, hx, rfl, rfl, rfl⟩ := (hruns k l rr).2 hrun
+      exact ⟨x.ref, List.mem_map.2 ⟨x, hx, rfl⟩, hc⟩
+    · rintro ⟨h, hh, hc⟩
+      obtain ⟨x, hx, rfl⟩ := List.mem_map.1 hh
+      exact ⟨x.recordI, x.left, x.right, (hruns _ _ _).1 ⟨x, hx, rfl, rfl, rfl⟩, hc⟩
+  rw [hiff]
+  exact this
+
 /-! ## integrate, zero_out_of_bounds -/
 
 /-- **`integrate` is consistent with the stored baseline.**  The new `area` is an integer nearest to
